@@ -66,43 +66,55 @@ func obsSw(sc psatoken.ISwComponent) string {
 	})
 }
 
+// getterList renders every getter's (value, error class), one entry per claim
+// in the fixed order of claimNames.
+var claimNames = []string{"profile", "cid", "lc", "impl", "seed", "cert", "sw", "nonce", "inst", "vsi", "extra"}
+
+func getterList(c psatoken.IClaims) (out []string) {
+	defer func() {
+		if r := recover(); r != nil {
+			out = append(out, fmt.Sprintf("PANIC(%v)", r))
+		}
+	}()
+	p, e := c.GetProfile()
+	out = append(out, fmt.Sprintf("profile=%q/%s", p, ec(e)))
+	cid, e := c.GetClientID()
+	out = append(out, fmt.Sprintf("cid=%d/%s", cid, ec(e)))
+	lc, e := c.GetSecurityLifeCycle()
+	out = append(out, fmt.Sprintf("lc=%d/%s", lc, ec(e)))
+	b, e := c.GetImplID()
+	out = append(out, fmt.Sprintf("impl=%x/%s", b, ec(e)))
+	b, e = c.GetBootSeed()
+	out = append(out, fmt.Sprintf("seed=%x/%s", b, ec(e)))
+	s, e := c.GetCertificationReference()
+	out = append(out, fmt.Sprintf("cert=%q/%s", s, ec(e)))
+	scs, e := c.GetSoftwareComponents()
+	var sb strings.Builder
+	fmt.Fprintf(&sb, "sw=%d/%s[", len(scs), ec(e))
+	for _, sc := range scs {
+		sb.WriteString(obsSw(sc))
+	}
+	sb.WriteString("]")
+	out = append(out, sb.String())
+	b, e = c.GetNonce()
+	out = append(out, fmt.Sprintf("nonce=%x/%s", b, ec(e)))
+	b, e = c.GetInstID()
+	out = append(out, fmt.Sprintf("inst=%x/%s", b, ec(e)))
+	s, e = c.GetVSI()
+	out = append(out, fmt.Sprintf("vsi=%q/%s", s, ec(e)))
+	if x, ok := c.(extraGetter); ok {
+		v, e := x.GetExtra()
+		out = append(out, fmt.Sprintf("extra=%d/%s", v, ec(e)))
+	}
+	return out
+}
+
 // getterObs renders every getter's (value, error class).
 func getterObs(c psatoken.IClaims) string {
 	if c == nil {
 		return "<nil claims>"
 	}
-	return safely(func() string {
-		var sb strings.Builder
-		p, e := c.GetProfile()
-		fmt.Fprintf(&sb, "profile=%q/%s;", p, ec(e))
-		cid, e := c.GetClientID()
-		fmt.Fprintf(&sb, "cid=%d/%s;", cid, ec(e))
-		lc, e := c.GetSecurityLifeCycle()
-		fmt.Fprintf(&sb, "lc=%d/%s;", lc, ec(e))
-		b, e := c.GetImplID()
-		fmt.Fprintf(&sb, "impl=%x/%s;", b, ec(e))
-		b, e = c.GetBootSeed()
-		fmt.Fprintf(&sb, "seed=%x/%s;", b, ec(e))
-		s, e := c.GetCertificationReference()
-		fmt.Fprintf(&sb, "cert=%q/%s;", s, ec(e))
-		scs, e := c.GetSoftwareComponents()
-		fmt.Fprintf(&sb, "sw=%d/%s[", len(scs), ec(e))
-		for _, sc := range scs {
-			sb.WriteString(obsSw(sc))
-		}
-		sb.WriteString("];")
-		b, e = c.GetNonce()
-		fmt.Fprintf(&sb, "nonce=%x/%s;", b, ec(e))
-		b, e = c.GetInstID()
-		fmt.Fprintf(&sb, "inst=%x/%s;", b, ec(e))
-		s, e = c.GetVSI()
-		fmt.Fprintf(&sb, "vsi=%q/%s;", s, ec(e))
-		if x, ok := c.(extraGetter); ok {
-			v, e := x.GetExtra()
-			fmt.Fprintf(&sb, "extra=%d/%s;", v, ec(e))
-		}
-		return sb.String()
-	})
+	return strings.Join(getterList(c), ";") + ";"
 }
 
 // fullObs = getters + validation class + both encodings (bytes or error class).
